@@ -366,8 +366,7 @@ Valid(o) ==
   CASE o.k = "yield" -> P # 0 /\ Exists(o.a) /\ evs[o.a].kind \in UserKinds /\ o.a # procs[P].pe
     [] o.k \in {"succeed", "fail"} -> Exists(o.a) /\ evs[o.a].kind = "ev"
     [] o.k = "interrupt" -> o.a \in 1..Len(procs)
-    [] o.k = "cond" -> /\ \A i \in 1..Len(o.s) : Exists(o.s[i]) /\ evs[o.s[i]].kind \in UserKinds
-                       /\ \A i, j \in 1..Len(o.s) : i # j => o.s[i] # o.s[j]
+    [] o.k = "cond" -> \A i \in 1..Len(o.s) : Exists(o.s[i]) /\ evs[o.s[i]].kind \in UserKinds   \* the same event may be listed twice
     [] o.k = "runev" -> Exists(o.a) /\ evs[o.a].kind \in UserKinds
     [] o.k \in {"request", "put", "get"} -> o.a \in 1..Len(res)
     [] o.k = "release" -> Exists(o.a) /\ evs[o.a].kind = "req"
